@@ -323,6 +323,11 @@ func (s *Subscription) unqueueEvents(reason uint8) {
 
 	for i, event := range eq {
 		s.processEvent(event)
+		// Did the event cause the subscription to be disposed?
+		// Then the remaining queued events are discarded.
+		if s.state == stateDisposed {
+			return
+		}
 		// Did one of the events activate queueing again?
 		if s.queueFlag != 0 {
 			s.eventQueue = append(eq[i+1:], s.eventQueue...)
